@@ -679,6 +679,14 @@ impl World {
                     if c.alive && c.pooled && c.use_parked.is_some() {
                         v.push(format!("nak:{}", c.name()));
                     }
+                    // the USE of a connection that is still outside the pool (refill after a kill): refused with
+                    // Invalid (`nakinv`) or with one of the other kinds (`nak`); the driver drops the connection and
+                    // refills again. Only on nodes whose pool has been up before (the worker's wait for a new pool's
+                    // first connection is not modelled for a refused first connection).
+                    if c.alive && !c.pooled && !c.excess && c.use_parked.is_some() && self.first_pooled[c.node] && !self.cfg.excess {
+                        v.push(format!("nakinv:{}", c.name()));
+                        v.push(format!("nak:{}", c.name()));
+                    }
                 }
             }
         }
@@ -794,14 +802,15 @@ impl World {
             let (id, k) = self.conns[i].use_parked.take().unwrap();
             self.cluster.discard(id);
             self.conns[i].dropped = Some(k);
-        } else if let Some(name) = action.strip_prefix("nak:") {
+        } else if let Some(name) = action.strip_prefix("nak:").or_else(|| action.strip_prefix("nakinv:")) {
             let i = self.conn_by_name(name);
             self.naks_left -= 1;
             let (id, k) = self.conns[i].use_parked.take().unwrap();
             // one refusal per family, rotating over connections and calls: three error codes and a response of the wrong
             // kind. (A SetKeyspace naming ANOTHER keyspace is covered by the names leg only: a server that answers so has
             // moved the connection, which no later request can be blamed for.)
-            let refusal = match (k + self.conns[i].node + self.conns[i].ord + self.cfg.variant as usize) % 4 {
+            let kind = if action.starts_with("nakinv:") { 0 } else if self.conns[i].pooled { (k + self.conns[i].node + self.conns[i].ord + self.cfg.variant as usize) % 4 } else { 1 + (k + self.conns[i].node + self.conns[i].ord) % 3 };
+            let refusal = match kind {
                 0 => Reply::error(mockcluster::wire::ErrorBody::invalid("mock: this node refuses the keyspace")),
                 1 => Reply::error(mockcluster::wire::ErrorBody::overloaded("mock: overloaded")),
                 2 => Reply::error(mockcluster::wire::ErrorBody::server_error("mock: internal error")),
@@ -810,7 +819,17 @@ impl World {
             if !self.cluster.release_with(id, refusal) {
                 return Err(stuck(format!("parked USE answer of {name} vanished")));
             }
-            self.conns[i].nak = Some(k);
+            if self.conns[i].pooled {
+                self.conns[i].nak = Some(k);
+            } else {
+                // connection setup failed: the driver drops the connection (and refills after its back-off)
+                let id = self.conns[i].id;
+                self.cluster
+                    .wait_entry(&format!("client closes connection {name} whose USE was refused"), 0, |e| e.conn == id && matches!(e.kind, mockcluster::LogKind::Closed { .. }))
+                    .await
+                    .map_err(stuck)?;
+                self.conns[i].alive = false;
+            }
         } else if let Some(name) = action.strip_prefix("kill:") {
             let i = self.conn_by_name(name);
             self.kills_left -= 1;
